@@ -134,4 +134,100 @@ theorem fold_declOld (l : List Req) (o : Obj) (h : ∀ r ∈ l, r ≠ .deleteOld
     rw [ih _ (fun r' hr' => h r' (by simp [hr']))]
     cases r <;> simp_all [apply]
 
+/-! ### what a delimiter listing enumerates -/
+
+/-- one step of the delimiter grouping of `entries` -/
+def groupStep (n : Nat) (acc : List Entry) (k : Str) : List Entry :=
+  match commonPrefix n k with
+  | some cp => if acc.getLast? = some (.dir cp) then acc else acc ++ [.dir cp]
+  | none => acc ++ [.key k]
+
+theorem entries_delim (keys : List Str) (pfx : Str) :
+    entries keys pfx true = (keys.filter (fun k => pfx.isPrefixOf k)).foldl (groupStep pfx.length) [] := rfl
+
+theorem group_mem_key (n : Nat) (l : List Str) (acc : List Entry) (k : Str) :
+    Entry.key k ∈ l.foldl (groupStep n) acc ↔ Entry.key k ∈ acc ∨ (k ∈ l ∧ commonPrefix n k = none) := by
+  induction l generalizing acc with
+  | nil => simp
+  | cons x l ih =>
+    rw [List.foldl_cons, ih]
+    unfold groupStep
+    cases hx : commonPrefix n x with
+    | some cp =>
+      simp only
+      have hne : ∀ (a : List Entry), Entry.key k ∈ a ++ [Entry.dir cp] ↔ Entry.key k ∈ a := by intro a; simp
+      constructor
+      · rintro (h | ⟨h1, h2⟩)
+        · split at h
+          · exact Or.inl h
+          · exact Or.inl ((hne _).mp h)
+        · exact Or.inr ⟨List.mem_cons_of_mem _ h1, h2⟩
+      · rintro (h | ⟨h1, h2⟩)
+        · left; split
+          · exact h
+          · exact (hne _).mpr h
+        · rcases List.mem_cons.mp h1 with rfl | h1
+          · rw [hx] at h2; cases h2
+          · exact Or.inr ⟨h1, h2⟩
+    | none =>
+      simp only
+      have hk : ∀ (a : List Entry), Entry.key k ∈ a ++ [Entry.key x] ↔ Entry.key k ∈ a ∨ k = x := by
+        intro a; simp
+      rw [hk]
+      constructor
+      · rintro ((h | h) | ⟨h1, h2⟩)
+        · exact Or.inl h
+        · subst h; exact Or.inr ⟨List.mem_cons_self .., hx⟩
+        · exact Or.inr ⟨List.mem_cons_of_mem _ h1, h2⟩
+      · rintro (h | ⟨h1, h2⟩)
+        · exact Or.inl (Or.inl h)
+        · rcases List.mem_cons.mp h1 with h1 | h1
+          · exact Or.inl (Or.inr h1)
+          · exact Or.inr ⟨h1, h2⟩
+
+theorem group_mem_dir (n : Nat) (l : List Str) (acc : List Entry) (cp : Str) :
+    Entry.dir cp ∈ l.foldl (groupStep n) acc ↔ Entry.dir cp ∈ acc ∨ ∃ k ∈ l, commonPrefix n k = some cp := by
+  induction l generalizing acc with
+  | nil => simp
+  | cons x l ih =>
+    rw [List.foldl_cons, ih]
+    unfold groupStep
+    cases hx : commonPrefix n x with
+    | some cp' =>
+      simp only
+      constructor
+      · rintro (h | ⟨k, h1, h2⟩)
+        · split at h
+          · exact Or.inl h
+          · rw [List.mem_append, List.mem_singleton] at h
+            rcases h with h | h
+            · exact Or.inl h
+            · injection h with h; subst h
+              exact Or.inr ⟨x, List.mem_cons_self .., hx⟩
+        · exact Or.inr ⟨k, List.mem_cons_of_mem _ h1, h2⟩
+      · rintro (h | ⟨k, h1, h2⟩)
+        · left; split
+          · exact h
+          · exact List.mem_append_left _ h
+        · rcases List.mem_cons.mp h1 with rfl | h1
+          · rw [hx] at h2; injection h2 with h2; subst h2
+            left; split
+            · rename_i hl
+              exact List.mem_of_getLast? hl
+            · simp
+          · exact Or.inr ⟨k, h1, h2⟩
+    | none =>
+      simp only
+      have hne : ∀ (a : List Entry), Entry.dir cp ∈ a ++ [Entry.key x] ↔ Entry.dir cp ∈ a := by intro a; simp
+      rw [hne]
+      constructor
+      · rintro (h | ⟨k, h1, h2⟩)
+        · exact Or.inl h
+        · exact Or.inr ⟨k, List.mem_cons_of_mem _ h1, h2⟩
+      · rintro (h | ⟨k, h1, h2⟩)
+        · exact Or.inl h
+        · rcases List.mem_cons.mp h1 with rfl | h1
+          · rw [hx] at h2; cases h2
+          · exact Or.inr ⟨k, h1, h2⟩
+
 end Rocfl.S3
